@@ -642,7 +642,7 @@ var c08DocType = map[string]map[string]string{
 var c08DocExt = []int{1, 512, 2, 1 + 256, 4, 8, 16 + 8, 64, 32, 1024, 2048}
 
 func runC08(ctx *Ctx) error {
-	ctx.Res.Rule = "exhaustive tables: 4 types x 21 formats; required x nullable x readOnly x writeOnly x skip-optional-pointer{unset,true,false} x x-omitempty{unset,true,false} x x-go-json-ignore{unset,true,false} x nullable-type x disable-required-readonly-as-pointer (1728 cells) on a string member; 11 extensions (with vs without: which of 12 coordinates of the declarations change); CORR: the member rule on other member types (ref, array, object, map, integer) equals the string member's in the same cell; non-trivial = every cell"
+	ctx.Res.Rule = "exhaustive tables: 4 types x 21 formats; required x nullable x readOnly x writeOnly x skip-optional-pointer{unset,true,false} x x-omitempty{unset,true,false} x x-go-json-ignore{unset,true,false} x nullable-type x disable-required-readonly-as-pointer (1728 cells) on a string member; 11 extensions (with vs without: which of 12 coordinates of the declarations change); CORR: the member rule on other member types (ref, array, object, map, integer) equals the string member's in the same cell; non-trivial = every cell Session 9: CORR of the struct tag (Model/FieldTags.lean) on seeded members and extra-tag maps; TRANS Gen/FieldRules.lean; dictionaries of 13-28 entries in the x-order correspondence; fields of the parameter object for parameters referring to renamed schemas."
 	for _, r := range c08TypeRows() {
 		ty, f := c08Types[r.Ty], c08Formats[r.Fmt]
 		want, ok := c08DocType[ty][f]
